@@ -347,6 +347,11 @@ class Graph:
             pool = self.lower(idx, ('iface', 'decl', 'impl'))
             k = min(len(pool), rng.choice([0, 1, 2, 2, 3]))
             nb = tuple(x.spec for x in rng.sample(pool, k))
+            if nb and not STRICT and rng.random() < 0.08:
+                # the same base listed twice (what alsoProvides(ob, I) called twice produces): the base counts its
+                # dependent twice and has to let go of it completely when the bases change again
+                nb = nb + (nb[0],)
+                self.ctx.count('assignments_with_a_base_listed_twice')
             how = 'assign'
         elif n.kind == 'impl':
             pool = self.lower(idx, ('iface',))
@@ -642,6 +647,11 @@ class Graph:
                         targets.append(('super(%s)-of-%s' % (C.__name__, n.name), providedBy(super(C, n.obj))))
                         ctx.count('synthesized_specifications_checked[super]')
         for name_, S in targets:
+            if any(len(set(map(id, x.__bases__))) != len(x.__bases__) for x in [S] + list(util.reach(S, util.spec_bases)[1])):
+                # a base listed twice somewhere in the ancestry: CPython's type() refuses such bases, the two oracles
+                # cannot both speak (C02's reachability oracle covers these nodes)
+                ctx.count('nodes_skipped_base_listed_twice')
+                continue
             if self.conflated(S, util.reach(S, util.spec_bases)[1]):
                 # an ancestry holding two equal-keyed interfaces: the library treats them as one (DESIGN 7.2)
                 ctx.count('nodes_skipped_conflated_twins')
